@@ -231,8 +231,8 @@ def gen_from_data(tier, rng):
        note="bounded: all 14 dtypes x 11 construction routes (ndarray, numpy scalar, attributes, dict, ndpoly, raw structured "
             "view, list of polynomials, iteration, copy); <=3 terms, <=2 indeterminates, exponents<=2, 5 shapes, C/Fortran/strided/read-only data; "
             "values incl. dtype extremes; result dtype = data dtype, values equal; plus 6 routes given columns (arrays, numpy or Python "
-            "scalars) of DIFFERENT dtypes in one call (constant term first): dtype = that of the first column (numpy's promotion of all "
-            "also accepted), every value = numpy's astype of the given value to it")
+            "scalars) of DIFFERENT dtypes in one call (constant term first): dtype = numpy's promotion of all columns, "
+            "every value = numpy's astype of the given value to it")
 @quiet
 def from_data(inp):
     import numpoly
@@ -240,8 +240,8 @@ def from_data(inp):
     tms = terms(s)
     r = ROUTES[inp["ctor"]](numpoly, tms[0][1], s, {})
     dtype = numpy.dtype(s["dtype"])
-    if "dtypes" in s and isinstance(r, numpoly.ndpoly) and r.dtype == numpy.result_type(*[c.dtype for _, c in tms]):
-        dtype = r.dtype     # mixed columns: the dtype of the first (what numpoly documents) or numpy's promotion of all
+    if "dtypes" in s:
+        dtype = numpy.result_type(*[c.dtype for _, c in tms])     # mixed columns: numpy's promotion of all of them
     return judge(r, cast_terms(tms, dtype), dtype, tuple(s["shape"]))
 
 
